@@ -34,6 +34,7 @@ type RigConfig struct {
 	Cached   bool `json:"cached_planner"`
 	RealHTTP bool `json:"real_multiop_queryer"` // MultiOpQueryer + HTTP bridge between executor and fakes
 	MaxBatch int  `json:"max_batch_size,omitempty"`
+	Subs     bool `json:"subscriptions,omitempty"` // graphql-ws upstream per service, gateway behind a real HTTP server
 }
 
 func (c RigConfig) String() string {
@@ -51,6 +52,29 @@ type Rig struct {
 	Ref      *fake.Evaluator
 	Cfg      RigConfig
 	Bridges  map[string]*fake.Bridge
+	Ups      map[string]*fake.WSUpstream
+	GWSrv    *httptest.Server
+}
+
+// hybridQueryer: queries go to the fake service, subscriptions through the real MultiOpQueryer.Subscribe to a
+// graphql-ws upstream
+type hybridQueryer struct {
+	queryer.Queryer
+	sub queryer.Queryer
+}
+
+func (h hybridQueryer) Subscribe(req *requests.Request, closeCh <-chan struct{}, resCh chan *requests.Response) error {
+	return h.sub.Subscribe(req, closeCh, resCh)
+}
+
+func (r *Rig) Close() {
+	if r.GWSrv != nil {
+		r.GWSrv.CloseClientConnections()
+		r.GWSrv.Close()
+	}
+	for _, u := range r.Ups {
+		u.Close()
+	}
 }
 
 // nopQueryer stands in for the pseudo-URL of introspection steps.
@@ -93,6 +117,12 @@ func NewRig(w *gen.World, cfg RigConfig) (*Rig, error) {
 		r.Services[u] = fake.NewService(u, own[i], w.Store)
 		r.Bridges[u] = &fake.Bridge{Svc: r.Services[u], ErrCall: -1}
 	}
+	if cfg.Subs {
+		r.Ups = map[string]*fake.WSUpstream{}
+		for _, u := range r.URLs {
+			r.Ups[u] = fake.NewWSUpstream()
+		}
+	}
 	var m merger.Merger = merger.ExtendMergerFunc(nil)
 	if cfg.HideNode {
 		m = merger.SanitizeNodeMergerFunc(nil)
@@ -117,14 +147,18 @@ func NewRig(w *gen.World, cfg RigConfig) (*Rig, error) {
 		pebbles.WithMerger(m),
 		pebbles.WithQueryerFactory(func(ctx *planner.PlanningContext, url string) queryer.Queryer {
 			if s, ok := r.Services[url]; ok {
+				var q queryer.Queryer = s
 				if cfg.RealHTTP {
 					mb := cfg.MaxBatch
 					if mb <= 0 {
 						mb = 3000
 					}
-					return queryer.NewMultiOpQueryer(url, mb).WithHTTPClient(&http.Client{Transport: r.Bridges[url]})
+					q = queryer.NewMultiOpQueryer(url, mb).WithHTTPClient(&http.Client{Transport: r.Bridges[url]})
 				}
-				return s
+				if up := r.Ups[url]; up != nil {
+					return hybridQueryer{Queryer: q, sub: queryer.NewMultiOpQueryer(up.URL(), 1)}
+				}
+				return q
 			}
 			return nopQueryer{url}
 		}),
@@ -149,6 +183,9 @@ func NewRig(w *gen.World, cfg RigConfig) (*Rig, error) {
 		return nil, fmt.Errorf("gateway: %v", err)
 	}
 	r.GW = gw
+	if cfg.Subs {
+		r.GWSrv = httptest.NewServer(http.HandlerFunc(gw.Handler))
+	}
 	return r, nil
 }
 
